@@ -99,12 +99,19 @@ def run(ctx):
                     for m_ in re.findall(r"'static': '([^']+)'", str(s["rv"])):
                         n_imp += 1
                         ok = (m_, n) in ALLOWED_STATICS or (m_, None) in ALLOWED_STATICS
+                        why_st = None
+                        if not ok:
+                            # any other static of the workspace that cannot change after initialisation: not `static mut`, no interior mutability
+                            for cr_ in crates:
+                                st_ = cr_.statics.get(m_)
+                                if st_ is not None and st_.get("mut") is False and not any(x in st_.get("ty", "") for x in ("Mutex", "RefCell", "Atomic", "Cell<", "RwLock", "UnsafeCell", "OnceCell", "OnceLock")):
+                                    ok, why_st = True, "immutable static of type %s" % st_.get("ty", "")[:80]
                         # closures of an allowed function count as that function
                         if not ok:
                             par = f.get("parent")
                             ok = par is not None and ((m_, par) in ALLOWED_STATICS)
                         ctx.inst("C02.R1", "%s@static:%s" % (n.replace(CORE, ""), m_.replace(CORE, "")), ok,
-                                 "static %s read in %s: %s" % (m_, n, ALLOWED_STATICS.get((m_, n)) or ALLOWED_STATICS.get((m_, None)) or "not an allowed static"), "%s:%d" % (s["sp"][0], s["sp"][1]))
+                                 "static %s read in %s: %s" % (m_, n, ALLOWED_STATICS.get((m_, n)) or ALLOWED_STATICS.get((m_, None)) or why_st or "not an allowed static"), "%s:%d" % (s["sp"][0], s["sp"][1]))
     # the seeded generator takes its seed from the argument
     for mname, (mfn, _r) in sorted(BA.members.items()):
         for b in mfn.calls_to("fastrand::Rng::with_seed"):
